@@ -362,9 +362,27 @@ def c20(pid, tier, replay):
 # ---------------------------------------------------------------------------------------------------------------
 # C13 concurrency: lock discipline probes + consistent snapshots + race detector (declared auxiliary oracle)
 
-def c13(pid, tier, replay):
+def conc_engine(tier):
+    """The concurrent probe (8 clients, -race build) and the TLC validation of its rows; cached per (tree, tier, seed) and
+    shared by C13 (lock discipline, snapshots, race reports) and the concurrent facts attached to C01 C05 C11 C16."""
+    import glob
+    from common import CACHE, locked, tree_key
+    key = tree_key("conc", tier, seed())
+    d = os.path.join(CACHE, "conc-" + key)
+    with locked(os.path.join(CACHE, "conc-" + key + ".lock")):
+        if os.path.exists(os.path.join(d, "result.json")):
+            return json.load(open(os.path.join(d, "result.json")))
+        shutil.rmtree(d, ignore_errors=True)
+        os.makedirs(d)
+        res = _conc_run(tier)
+        json.dump(res, open(os.path.join(d, "result.json"), "w"), indent=1)
+        for o in sorted(glob.glob(os.path.join(CACHE, "conc-*/")), key=os.path.getmtime)[:-6]:
+            shutil.rmtree(o, ignore_errors=True)
+        return res
+
+
+def _conc_run(tier):
     t0 = time.time()
-    clean_replays(pid)
     with scratch("verif-c13-") as work:
         copy_specs(work, {"LockDiscipline.tla", "LockDiscipline.cfg", "LockUndisciplined.cfg", "RowsLock.tla", "RowsLock.cfg"})
         rc, out = tlc(work, "LockDiscipline.tla", "LockDiscipline.cfg", workers=2, timeout=300)
@@ -376,7 +394,8 @@ def c13(pid, tier, replay):
             raise Infra("negative control (mutation under the read lock) was not rejected")
         probe = build_probe("concprobe", work, race=True)
         env = dict(os.environ, VERIF_TIER=tier, VERIF_SEED=str(seed()), GORACE="halt_on_error=0 history_size=3",
-                   VERIF_ROWS_LOCK=os.path.join(work, "lock_rows.ndjson"), VERIF_ROWS_LOCK_SNAP=os.path.join(work, "lock_snap_rows.ndjson"))
+                   VERIF_ROWS_LOCK=os.path.join(work, "lock_rows.ndjson"), VERIF_ROWS_LOCK_SNAP=os.path.join(work, "lock_snap_rows.ndjson"),
+                   VERIF_ROWS_LOCK_FACTS=os.path.join(work, "lock_fact_rows.ndjson"))
         p = run([probe, "-test.run", "TestConcurrentClients", "-test.count", "1", "-test.timeout", "0"], env=env, timeout=1500)
         outp = p.stdout or ""
         races = []
@@ -409,15 +428,18 @@ def c13(pid, tier, replay):
             f.write(json.dumps({"race": False, "kind": "summary", "frames": []}) + "\n")
             for r in races:
                 f.write(json.dumps(r) + "\n")
-        for fn in ("lock_rows.ndjson", "lock_snap_rows.ndjson"):
+        empty = {"site": "none", "mutates": False, "writeHeld": True, "anyHeld": True, "n": 0, "what": "no rows (process died)", "ok": True, "info": "",
+                 "prop": "none", "p": "", "a": 0, "b": 0}
+        for fn in ("lock_rows.ndjson", "lock_snap_rows.ndjson", "lock_fact_rows.ndjson"):
             pth = os.path.join(work, fn)
             if not os.path.exists(pth) or os.path.getsize(pth) == 0:
-                open(pth, "w").write(json.dumps({"site": "none", "mutates": False, "writeHeld": True, "anyHeld": True, "n": 0, "what": "no rows (process died)", "ok": True, "info": ""}) + "\n")
+                open(pth, "w").write(json.dumps(empty) + "\n")
         lock_rows = [json.loads(l) for l in open(os.path.join(work, "lock_rows.ndjson"))]
         snap_rows = [json.loads(l) for l in open(os.path.join(work, "lock_snap_rows.ndjson"))]
+        fact_rows = [json.loads(l) for l in open(os.path.join(work, "lock_fact_rows.ndjson"))]
         viols = []
-        files = {"lock": "lock_rows.ndjson", "snap": "lock_snap_rows.ndjson", "race": "lock_race_rows.ndjson"}
-        for rnd in range(30):
+        files = {"lock": "lock_rows.ndjson", "snap": "lock_snap_rows.ndjson", "race": "lock_race_rows.ndjson", "fact": "lock_fact_rows.ndjson"}
+        for rnd in range(40):
             rc, out = tlc(work, "RowsLock.tla", "RowsLock.cfg", workers=1, timeout=600)
             if "No error has been found" in out:
                 break
@@ -428,9 +450,23 @@ def c13(pid, tier, replay):
             kind, line = stt.get("kind", '"lock"').strip('"'), int(stt.get("line", "1"))
             fn = os.path.join(work, files[kind])
             lines = open(fn).read().splitlines()
-            viols.append((name, json.loads(lines[line - 1])))
+            viols.append([name, json.loads(lines[line - 1])])
             del lines[line - 1]
+            if not lines:
+                lines = [json.dumps(empty)]
             open(fn, "w").write("\n".join(lines) + "\n")
+    return {"viols": viols, "lock_rows": lock_rows, "snap_rows": snap_rows, "fact_rows": fact_rows, "races": len(races),
+            "states": st["distinct"] if st else 1, "transitions": st["generated"] if st else 1, "wall_s": round(time.time() - t0, 1)}
+
+
+def c13(pid, tier, replay):
+    t0 = time.time()
+    clean_replays(pid)
+    res = conc_engine(tier)
+    viols = [(n, r) for n, r in res["viols"] if n.startswith("C13_")]
+    lock_rows, snap_rows = res["lock_rows"], res["snap_rows"]
+    st = {"distinct": res["states"], "generated": res["transitions"]}
+    races = [None] * res["races"]
     reported = []
     seen = set()
     for name, r in viols:
@@ -453,7 +489,7 @@ def c13(pid, tier, replay):
            "evaluations": nacc, "distinct_nontrivial": len(lock_rows), "rule": "distinct = distinct (site, mutates, lock mode) combinations observed",
            "samples": lock_rows[:3], "states": st["distinct"] if st else 1, "transitions": st["generated"] if st else 1,
            "sites": sorted({r["site"] for r in lock_rows}), "snapshots": snap_rows[0].get("what") if snap_rows else "", "race_reports": len(races)}
-    write_evidence(pid, tier, "other", cov, time.time() - t0, violations=len(reported),
+    write_evidence(pid, tier, "other", cov, time.time() - t0 + res["wall_s"], violations=len(reported),
                    assumptions=["unsynchronised accesses at sites without a probe are only found by the race detector on the schedules that happened",
                                 "TryRLock / TryLock can only err towards 'held'"])
     from checks import known_match
